@@ -29,6 +29,7 @@ fn scheme_of(c: char) -> Option<String> {
     match c {
         'B' => Some(scheme(200)),
         'C' => Some(scheme(300)),
+        'D' => Some(DEFAULT.to_string()), // the built-in default text, pushed by a server that runs it
         'X' => Some("this is not a scheme".to_string()), // no stop= : cannot be parsed
         'Y' => Some("stop=abc\n1=5-5".to_string()),
         _ => None,
@@ -46,15 +47,30 @@ pub fn child(history: &str) -> i32 {
     // model: which scheme should be in force for new sessions (None = built-in default)
     let mut current: Option<String> = None;
     let mut world: Option<World> = None;
+    // 'Z' first: the client is constructed with a custom scheme instead of the process default
+    let custom = history.starts_with('Z');
+    let client_factory = || -> Arc<PaddingFactory> {
+        if custom {
+            // what client.rs does for a new session: the updated default if any, else the construction-time scheme
+            PaddingFactory::updated_default().unwrap_or_else(|| padding(&scheme(150)))
+        } else {
+            PaddingFactory::default()
+        }
+    };
+    if custom {
+        // a process normally touches the built-in default at start-up (bin/client.rs does) even when configured otherwise
+        let _ = PaddingFactory::default();
+    }
     for (step, op) in history.chars().enumerate() {
         match op {
             'T' => {
                 let f = PaddingFactory::default();
                 out.push(json!({"step": step, "op": "T", "md5": f.md5()}));
             }
-            'B' | 'C' | 'X' | 'Y' => {
+            'B' | 'C' | 'D' | 'X' | 'Y' => {
                 let pushed = scheme_of(op).unwrap();
                 let parsable = parse_scheme(&pushed).is_some();
+                let factory = client_factory();
                 let slot: Arc<Mutex<Option<serde_json::Value>>> = Arc::new(Mutex::new(None));
                 let slot2 = slot.clone();
                 let pushed2 = pushed.clone();
@@ -63,11 +79,12 @@ pub fn child(history: &str) -> i32 {
                     let slot2 = slot2.clone();
                     let pushed2 = pushed2.clone();
                     let expect_before = expect_before.clone();
+                    let factory = factory.clone();
                     async move {
                         let link = peer_link(PipeCfg::new("s2c"), PipeCfg::new("c2s"));
                         let wire = link.peer.out.clone();
                         // the client side uses the process default, like the real client
-                        let sess = Arc::new(Session::new_client(link.sess_r, link.sess_w, PaddingFactory::default(), None));
+                        let sess = Arc::new(Session::new_client(link.sess_r, link.sess_w, factory, None));
                         let s2 = sess.clone();
                         tokio::spawn(async move {
                             let _ = s2.recv_loop().await;
@@ -102,9 +119,9 @@ pub fn child(history: &str) -> i32 {
                     current = Some(pushed);
                 }
             }
-            'R' | 'r' => {
-                let srv_scheme = if op == 'R' { scheme(200) } else { scheme(300) };
-                let w = world.get_or_insert_with(|| rt.block_on(World::start()));
+            'R' | 'r' | 'd' => {
+                let srv_scheme = if op == 'R' { scheme(200) } else if op == 'r' { scheme(300) } else { DEFAULT.to_string() };
+                let w = world.get_or_insert_with(|| rt.block_on(World::start(custom)));
                 let r = rt.block_on(w.request(&srv_scheme));
                 out.push(json!({"step": step, "op": op.to_string(), "result": r}));
                 if r.get("pushed").and_then(|p| p.as_bool()) == Some(true) {
@@ -128,7 +145,7 @@ struct World {
 }
 
 impl World {
-    async fn start() -> World {
+    async fn start(custom: bool) -> World {
         let tls = anytls_rs::util::tls::create_server_config().unwrap();
         let acceptor = tokio_rustls::TlsAcceptor::from(tls);
         let l = tokio::net::TcpListener::bind("127.0.0.1:0").await.unwrap();
@@ -191,7 +208,8 @@ impl World {
             }
         });
         // like bin/client.rs: the client is built once with the process default scheme
-        let client = crate::lx::make_client("pw", addr, PaddingFactory::default(), crate::lx::pool_cfg(3600, 3600, 1));
+        let construction = if custom { padding(&scheme(150)) } else { PaddingFactory::default() };
+        let client = crate::lx::make_client("pw", addr, construction, crate::lx::pool_cfg(3600, 3600, 1));
         World { client, scheme: scheme_cell, seen }
     }
 
@@ -213,7 +231,7 @@ impl World {
 
 fn expected_size(s: &Option<String>) -> Option<usize> {
     // None = built-in default scheme: not one of the fixed-size schemes
-    s.as_ref().and_then(|t| if t == &scheme(200) { Some(200) } else if t == &scheme(300) { Some(300) } else { None })
+    s.as_ref().and_then(|t| if t == &scheme(200) { Some(200) } else if t == &scheme(300) { Some(300) } else if t == &scheme(150) { Some(150) } else { None })
 }
 
 pub fn run(tier: Tier) -> i32 {
@@ -224,7 +242,7 @@ pub fn run(tier: Tier) -> i32 {
         "schemes B and C prescribe one write of exactly 200 / 300 bytes for every packet below stop (disjoint from each other and from the built-in default), so the scheme in force is visible in the write sizes".into(),
         "client requests run against a scripted TLS server inside the harness that reads the announced padding-md5 and pushes its scheme when it differs".into(),
     ];
-    let ops = ['T', 'B', 'C', 'X', 'R', 'r'];
+    let ops = ['T', 'Z', 'B', 'C', 'D', 'X', 'R', 'r', 'd'];
     let depth = if thorough { 4 } else { 3 };
     let mut hists: Vec<String> = vec![];
     let mut frontier: Vec<String> = vec![String::new()];
@@ -233,10 +251,14 @@ pub fn run(tier: Tier) -> i32 {
         for h in &frontier {
             for o in ops {
                 // T only matters first; at most two client requests per history (each is a TLS round trip)
-                if o == 'T' && !h.is_empty() {
+                if (o == 'T' || o == 'Z') && !h.is_empty() {
                     continue;
                 }
-                if (o == 'R' || o == 'r') && h.chars().filter(|c| *c == 'R' || *c == 'r').count() >= 2 {
+                if (o == 'R' || o == 'r' || o == 'd') && h.chars().filter(|c| *c == 'R' || *c == 'r' || *c == 'd').count() >= 2 {
+                    continue;
+                }
+                // the built-in default text is only interesting for a client configured otherwise
+                if (o == 'D' || o == 'd') && !h.starts_with('Z') {
                     continue;
                 }
                 next.push(format!("{h}{o}"));
@@ -275,13 +297,14 @@ pub fn run(tier: Tier) -> i32 {
         }
         // replay the model
         let mut current: Option<String> = None; // scheme in force for new sessions
-        let touched_first = h.starts_with('T');
+        let touched_first = h.starts_with('T') || h.starts_with('Z');
+        let custom = h.starts_with('Z');
         for st in steps.as_array().cloned().unwrap_or_default() {
             let op = st["op"].as_str().unwrap_or("").chars().next().unwrap_or(' ');
             let step = st["step"].as_u64().unwrap_or(0);
             let ctx = format!("history {h} step {step} ({op}){}", if touched_first { "" } else { " [default not touched before]" });
             match op {
-                'B' | 'C' | 'X' | 'Y' => {
+                'B' | 'C' | 'D' | 'X' | 'Y' => {
                     let res = &st["result"];
                     if res.is_null() || !st["panics"].as_array().map(|a| a.is_empty()).unwrap_or(true) {
                         rep.violation("C19:session-disturbed", &format!("{ctx}: {:?}", st["panics"]), json!({"engine": "BX-child", "history": h}));
@@ -296,7 +319,7 @@ pub fn run(tier: Tier) -> i32 {
                     let pushed = scheme_of(op).unwrap();
                     let parsable = parse_scheme(&pushed).is_some();
                     // packets 1,2 are shaped by the scheme in force before; packets 3..5 by the pushed one (if parsable)
-                    let before = expected_size(&current);
+                    let before = expected_size(&current).or(if custom && current.is_none() { Some(150) } else { None });
                     if let Some(n) = before {
                         for (k, w) in writes[..2].iter().enumerate() {
                             if *w != vec![n] {
@@ -330,9 +353,9 @@ pub fn run(tier: Tier) -> i32 {
                         current = Some(pushed);
                     }
                 }
-                'R' | 'r' => {
+                'R' | 'r' | 'd' => {
                     let res = &st["result"];
-                    let srv = if op == 'R' { scheme(200) } else { scheme(300) };
+                    let srv = if op == 'R' { scheme(200) } else if op == 'r' { scheme(300) } else { DEFAULT.to_string() };
                     if res["request_ok"].as_bool() != Some(true) {
                         rep.violation("C19:request-failed", &format!("{ctx}: {res}"), json!({"engine": "BX-child", "history": h}));
                         continue;
@@ -355,6 +378,6 @@ pub fn run(tier: Tier) -> i32 {
             }
         }
     }
-    rep.sections.insert("bx".into(), json!({"histories": n, "depth": depth, "alphabet": "T (touch default), B C (session + push of scheme B / C), X (session + unparsable push), R r (client request against a scripted TLS server using B / C)"}));
+    rep.sections.insert("bx".into(), json!({"histories": n, "depth": depth, "alphabet": "T (touch default) | Z (client constructed with a custom scheme), B C D (session + push of scheme B / C / the built-in default text), X (session + unparsable push), R r d (client request against a scripted TLS server using B / C / the built-in default)"}));
     rep.finish("BX over process histories, one fresh child process each: every history of length <= d over {touch default, session with a push of scheme B / C / an unparsable scheme followed by shaped writes, client request through the real Client against a scripted TLS server}; write sizes after a push must be those of the pushed scheme, sessions created afterwards must start with it and announce its md5, an unparsable push changes nothing; non-trivial = distinct history")
 }
